@@ -271,3 +271,28 @@ fn test_factor_base_size() {
 pub fn verif_stage2_table() -> &'static [(f64, u64, u64)] {
     STAGE2_PARAMS
 }
+
+// ---------------------------------------------------------------------------
+// Verification hooks (add-only, compiled only with --cfg yamaquasi_verif).
+
+#[cfg(yamaquasi_verif)]
+pub fn verif_fbsize_tables() -> [&'static [(u32, u32, u32)]; 3] {
+    [QS_FBSIZES, MPQS_FBSIZES, CLASSGROUP_FBSIZES]
+}
+
+#[cfg(yamaquasi_verif)]
+thread_local! {
+    /// Recorder (per thread) for the hard-wired strategy rows: while `Some`, every entry into
+    /// `ecm::ecm`, `ecm128::ecm` and `pollard_pm1::pm1_impl` pushes (who, curves, B1, B2).
+    pub static VERIF_STRATEGY: std::cell::RefCell<Option<Vec<(&'static str, u64, u64, f64)>>> =
+        std::cell::RefCell::new(None);
+}
+
+#[cfg(yamaquasi_verif)]
+pub fn verif_strategy_record(who: &'static str, curves: u64, b1: u64, b2: f64) {
+    VERIF_STRATEGY.with(|r| {
+        if let Some(v) = r.borrow_mut().as_mut() {
+            v.push((who, curves, b1, b2));
+        }
+    });
+}
